@@ -191,15 +191,17 @@ def do_subset(ctx, nodes, ro, ru, via, acc, record=False):
     # reversed numpy views, int64 ...), chosen deterministically from the list itself
     form, arg = AF.pick(nodes, salt=2 * ro + ru)
     acc.count("argform_" + form)
+    # options that equal their documented default are spelled out in some calls and left out in others
+    okw = AF.omit_defaults(dict(record_provenance=record, reorder_populations=ro, remove_unreferenced=ru),
+                           dict(record_provenance=True, reorder_populations=True, remove_unreferenced=True),
+                           salt=len(nodes) + sum(nodes))
     try:
         if via == "ts":
-            out = ctx.ts.subset(arg, record_provenance=record, reorder_populations=ro,
-                                remove_unreferenced=ru).dump_tables()
+            out = ctx.ts.subset(arg, **okw).dump_tables()
         else:
             out = ctx.tc.copy()
             held = held_views(out)
-            out.subset(arg, record_provenance=record, reorder_populations=ro,
-                       remove_unreferenced=ru)
+            out.subset(arg, **okw)
             stale = stale_views(out, held)
             if stale:
                 acc.fail("subset:held_table_not_updated", f"subset({nodes}) is documented as in place, but the table "
@@ -409,15 +411,16 @@ def do_union(ctx, cover, xo, yo, ro, add_pop, check, via, acc, record=False):
 
     form, marg = AF.pick(mapping, salt=2 * check + add_pop)
     acc.count("argform_" + form)
+    ukw = AF.omit_defaults(dict(check_shared_equality=check, add_populations=add_pop, record_provenance=record),
+                           dict(check_shared_equality=True, add_populations=True, record_provenance=True),
+                           salt=sum(cover) + len(mapping))
     try:
         if via == "ts":
-            out = tsA.union(tsB, marg, check_shared_equality=check, add_populations=add_pop,
-                            record_provenance=record).dump_tables()
+            out = tsA.union(tsB, marg, **ukw).dump_tables()
         else:
             out = tA.copy()
             held = held_views(out)
-            out.union(tB, marg, check_shared_equality=check, add_populations=add_pop,
-                      record_provenance=record)
+            out.union(tB, marg, **ukw)
             stale = stale_views(out, held)
             if stale:
                 acc.fail("union:held_table_not_updated", f"{what}: union works in place, but the table objects "
